@@ -151,6 +151,10 @@ def compose_units(unit_sig):
         # by only multiplying if the multiplier is NOT 1.
         if unit.multiple != 1:
             multiple *= unit.multiple ** exp
+            if isinstance(multiple, float) and math.isinf(multiple):
+                # float * float overflows to inf silently (unlike **),
+                # and 0 * inf is nan: 0 ly^19 ly^19 was "nan m^38".
+                raise OverflowError("unit factor out of range")
         offset = unit.offset
         if offset != 0 and len(unit_specs) > 1:
             raise EvalError(f"Can't combine unit '{name}' with other units, since it has an offset.")
